@@ -22,6 +22,9 @@ type E2ECase struct {
 	Balancer string `json:"balancer"` // round-robin | priority
 	Prio     []int  `json:"prio"`     // one per endpoint (2..4)
 	K        int    `json:"k"`
+	// HostName: the endpoints are configured by host name (http://localhost:<port>), as several
+	// instances on one machine usually are
+	HostName bool `json:"host_name,omitempty"`
 }
 
 func runE2E(c E2ECase) []ev.Violation {
@@ -37,7 +40,7 @@ func runE2E(c E2ECase) []ev.Violation {
 	n := len(c.Prio)
 	var eps []rig.EP
 	for i := 0; i < n; i++ {
-		eps = append(eps, rig.EP{Backend: i, Priority: c.Prio[i]})
+		eps = append(eps, rig.EP{Backend: i, Priority: c.Prio[i], HostName: c.HostName})
 		r.Raw[i].SetScript(backend.OK(200, [][2]string{{"Content-Type", "application/json"}}, 16, "cl", r.Raw[i].ID))
 	}
 	if _, _, err := r.Setup(eps); err != nil {
@@ -104,5 +107,6 @@ func genE2E(t *rapid.T) E2ECase {
 		c.Prio = append(c.Prio, rapid.SampledFrom([]int{1, 2, 3}).Draw(t, "prio"))
 	}
 	c.K = rapid.IntRange(3, 8).Draw(t, "k")
+	c.HostName = rapid.IntRange(0, 2).Draw(t, "hostname") == 0
 	return c
 }
